@@ -66,33 +66,47 @@ fn uncounted<T>(f: impl FnOnce() -> T) -> T {
 struct RecBuilder {
     log: Log,
     cur_fdt: Rc<Cell<u32>>,
+    /// MultiReceiver mode: every event carries the TSI the callback was given (`T<tsi>.` prefix)
+    tag_tsi: bool,
 }
 struct RecWriter {
     toi: u128,
     log: Log,
+    tag: String,
+}
+
+impl RecBuilder {
+    fn tag(&self, tsi: &u64) -> String {
+        if self.tag_tsi {
+            format!("T{}.", tsi)
+        } else {
+            String::new()
+        }
+    }
 }
 
 impl ObjectWriterBuilder for RecBuilder {
     fn new_object_writer(
         &self,
         _e: &UDPEndpoint,
-        _tsi: &u64,
+        tsi: &u64,
         toi: &u128,
         meta: &ObjectMetadata,
         _now: SystemTime,
     ) -> ObjectWriterBuilderResult {
         uncounted(|| {
-            self.log.borrow_mut().push((*toi, format!("n{}:{}", toi, show_cc(&meta.cache_control))));
-            ObjectWriterBuilderResult::StoreObject(Box::new(RecWriter { toi: *toi, log: self.log.clone() }))
+            let tag = self.tag(tsi);
+            self.log.borrow_mut().push((*toi, format!("{}n{}:{}", tag, toi, show_cc(&meta.cache_control))));
+            ObjectWriterBuilderResult::StoreObject(Box::new(RecWriter { toi: *toi, log: self.log.clone(), tag }))
         })
     }
-    fn update_cache_control(&self, _e: &UDPEndpoint, _tsi: &u64, toi: &u128, meta: &ObjectMetadata, _now: SystemTime) {
-        uncounted(|| self.log.borrow_mut().push((*toi, format!("u{}:{}", toi, show_cc(&meta.cache_control)))))
+    fn update_cache_control(&self, _e: &UDPEndpoint, tsi: &u64, toi: &u128, meta: &ObjectMetadata, _now: SystemTime) {
+        uncounted(|| self.log.borrow_mut().push((*toi, format!("{}u{}:{}", self.tag(tsi), toi, show_cc(&meta.cache_control)))))
     }
     fn fdt_received(
         &self,
         _e: &UDPEndpoint,
-        _tsi: &u64,
+        tsi: &u64,
         _xml: &str,
         _expires: SystemTime,
         _meta: &ObjectMetadata,
@@ -100,30 +114,49 @@ impl ObjectWriterBuilder for RecBuilder {
         _now: SystemTime,
         _ext: Option<SystemTime>,
     ) {
-        uncounted(|| self.log.borrow_mut().push((0, format!("f{}", self.cur_fdt.get()))))
+        uncounted(|| self.log.borrow_mut().push((0, format!("{}f{}", self.tag(tsi), self.cur_fdt.get()))))
     }
 }
 
 impl ObjectWriter for RecWriter {
     fn open(&self, _now: SystemTime) -> flute::error::Result<()> {
-        uncounted(|| self.log.borrow_mut().push((self.toi, format!("o{}", self.toi))));
+        uncounted(|| self.log.borrow_mut().push((self.toi, format!("{}o{}", self.tag, self.toi))));
         Ok(())
     }
     fn write(&self, sbn: u32, data: &[u8], _now: SystemTime) -> flute::error::Result<()> {
-        uncounted(|| self.log.borrow_mut().push((self.toi, format!("w{}:{}:{}", self.toi, sbn, data.len()))));
+        uncounted(|| self.log.borrow_mut().push((self.toi, format!("{}w{}:{}:{}", self.tag, self.toi, sbn, data.len()))));
         Ok(())
     }
     fn complete(&self, _now: SystemTime) {
-        uncounted(|| self.log.borrow_mut().push((self.toi, format!("c{}", self.toi))))
+        uncounted(|| self.log.borrow_mut().push((self.toi, format!("{}c{}", self.tag, self.toi))))
     }
     fn error(&self, _now: SystemTime) {
-        uncounted(|| self.log.borrow_mut().push((self.toi, format!("e{}", self.toi))))
+        uncounted(|| self.log.borrow_mut().push((self.toi, format!("{}e{}", self.tag, self.toi))))
     }
     fn interrupted(&self, _now: SystemTime) {
-        uncounted(|| self.log.borrow_mut().push((self.toi, format!("i{}", self.toi))))
+        uncounted(|| self.log.borrow_mut().push((self.toi, format!("{}i{}", self.tag, self.toi))))
     }
     fn enable_md5_check(&self) -> bool {
         false
+    }
+}
+
+struct MRx {
+    mr: flute::receiver::MultiReceiver,
+    log: Log,
+    cur_fdt: Rc<Cell<u32>>,
+    opened: Rc<Cell<u64>>,
+    closed: Rc<Cell<u64>>,
+    ep: UDPEndpoint,
+}
+
+struct Counting2(Rc<Cell<u64>>, Rc<Cell<u64>>);
+impl flute::receiver::MultiReceiverListener for Counting2 {
+    fn on_session_open(&self, _e: &flute::receiver::ReceiverEndpoint) {
+        self.0.set(self.0.get() + 1);
+    }
+    fn on_session_closed(&self, _e: &flute::receiver::ReceiverEndpoint) {
+        self.1.set(self.1.get() + 1);
     }
 }
 
@@ -171,6 +204,8 @@ pub struct RecvEngine {
     heap17_reported: std::collections::HashSet<String>,
     /// payload bytes received so far per key (TOI, or FDT instance)
     rx_bytes: HashMap<u128, i64>,
+    /// `mcfg`: a MultiReceiver (compared with tsi's `MultiRecv.step (recvMachine ..)` by the model driver)
+    mrx: Option<MRx>,
     /// the `cfg` op of the current case (handed to the child process of `iso`)
     cfg_line: String,
     iso_n: u32,
@@ -187,7 +222,7 @@ pub struct RecvEngine {
 fn make_rx(c: &Cfg, count: bool) -> Rx {
     let log: Log = Rc::new(RefCell::new(Vec::new()));
     let cur_fdt = Rc::new(Cell::new(0u32));
-    let builder = Rc::new(RecBuilder { log: log.clone(), cur_fdt: cur_fdt.clone() });
+    let builder = Rc::new(RecBuilder { log: log.clone(), cur_fdt: cur_fdt.clone(), tag_tsi: false });
     let to = match c.fast {
         1 => Duration::from_millis(1),
         // per-object staleness cases: the only direction that races with the machine load is "NOT yet timed out"
@@ -232,7 +267,7 @@ fn panic_class(loc: &str) -> String {
 
 impl RecvEngine {
     pub fn new() -> RecvEngine {
-        RecvEngine { rx: None, rx0: None, cfg: Cfg::default(), dead: false, hist: HashMap::new(), sh: Shadow::default(), max_xml: 0, heap_reported: Default::default(), heap17_reported: Default::default(), rx_bytes: HashMap::new(), cfg_line: String::new(), iso_n: 0, cur_encoded: false, ann: HashMap::new(), grown_toi0: 0, cur_key: 0, cur_is_toi0: false }
+        RecvEngine { rx: None, rx0: None, cfg: Cfg::default(), dead: false, hist: HashMap::new(), sh: Shadow::default(), max_xml: 0, heap_reported: Default::default(), heap17_reported: Default::default(), rx_bytes: HashMap::new(), mrx: None, cfg_line: String::new(), iso_n: 0, cur_encoded: false, ann: HashMap::new(), grown_toi0: 0, cur_key: 0, cur_is_toi0: false }
     }
 
     /// bytes that an announcement (EXT_FTI, or a File entry of an FDT) explains for `key`
@@ -251,10 +286,34 @@ impl RecvEngine {
     fn drop_rx(&mut self) {
         let a = self.rx.take();
         let b = self.rx0.take();
+        let c = self.mrx.take();
         let _ = guarded(AssertUnwindSafe(move || {
             drop(a);
             drop(b);
+            drop(c);
         }));
+    }
+
+    /// the answer line of a MultiReceiver call: result, the two counters summed over the sessions, sessions
+    /// opened / closed so far (listener), the writer callbacks of the call tagged with their TSI
+    fn mobserve(&mut self, r: Result<bool, String>, o: &mut Oracle, what: &str) -> String {
+        let m = self.mrx.as_mut().unwrap();
+        let evs = drain(&m.log);
+        let res = match r {
+            Ok(true) => "OK",
+            Ok(false) => "ERR",
+            Err(loc) => {
+                self.dead = true;
+                o.fail(&panic_class(&loc), &format!("MultiReceiver::{} panics at {}", what, loc));
+                return "PANIC".to_string();
+            }
+        };
+        let mut s = format!("{} {} {} s{}/{}", res, m.mr.nb_objects(), m.mr.nb_objects_error(), m.opened.get(), m.closed.get());
+        for (_, e) in &evs {
+            s.push(' ');
+            s.push_str(e);
+        }
+        s
     }
 
     /// one receiver call on `rx`, returns (OK|ERR|PANIC loc, events)
@@ -679,6 +738,60 @@ impl Engine for RecvEngine {
                 }
                 "ok".into()
             }
+            "mcfg" if t.len() >= 6 => {
+                // recv mcfg <max_objects_error> <object_max_cache_size> <receive_once> <expiry_check>
+                // a MultiReceiver without TSI filtering and without any time-out (nothing depends on real time)
+                self.reset();
+                let log: Log = Rc::new(RefCell::new(Vec::new()));
+                let cur_fdt = Rc::new(Cell::new(0u32));
+                let builder = Rc::new(RecBuilder { log: log.clone(), cur_fdt: cur_fdt.clone(), tag_tsi: true });
+                let config = RxConfig {
+                    max_objects_error: t[2].parse().unwrap_or(0),
+                    session_timeout: None,
+                    object_timeout: None,
+                    object_max_cache_size: Some(t[3].parse().unwrap_or(0)),
+                    object_receive_once: b(t[4]),
+                    enable_fdt_expiration_check: b(t[5]),
+                };
+                let mut mr = flute::receiver::MultiReceiver::new(builder, Some(config), false);
+                let (opened, closed) = (Rc::new(Cell::new(0u64)), Rc::new(Cell::new(0u64)));
+                mr.add_listener(Counting2(opened.clone(), closed.clone()));
+                let ep = UDPEndpoint::new(None, "224.0.0.1".to_string(), 5000);
+                self.mrx = Some(MRx { mr, log, cur_fdt, opened, closed, ep });
+                "ok".into()
+            }
+            "mpkt" if t.len() >= 4 => {
+                // recv mpkt <now> <hex> <ans..>   (the answer of the XML parser is for the model only)
+                if self.dead || self.mrx.is_none() {
+                    return "dead".into();
+                }
+                let now: i64 = t[2].parse().unwrap_or(0);
+                let bytes = match unhex(t[3]) {
+                    Some(b) => b,
+                    None => return "bad-op".into(),
+                };
+                let fdt_id = match guarded(|| parse_info(&bytes)) {
+                    Ok(Ok(i)) => i.fdt_id.unwrap_or(0),
+                    _ => 0,
+                };
+                let m = self.mrx.as_mut().unwrap();
+                m.cur_fdt.set(fdt_id);
+                let ep = m.ep.clone();
+                let r = guarded(AssertUnwindSafe(|| m.mr.push(&ep, &bytes, st(now)).is_ok()));
+                self.mobserve(r, o, "push")
+            }
+            "mcleanup" if t.len() >= 3 => {
+                if self.dead || self.mrx.is_none() {
+                    return "dead".into();
+                }
+                let now: i64 = t[2].parse().unwrap_or(0);
+                let m = self.mrx.as_mut().unwrap();
+                let r = guarded(AssertUnwindSafe(|| {
+                    m.mr.cleanup(st(now));
+                    true
+                }));
+                self.mobserve(r, o, "cleanup")
+            }
             "mr2" if t.len() >= 3 => {
                 // C17 at the MultiReceiver: FDT-ONLY traffic (no object in flight): unfinished FDT instances are
                 // released by cleanup once the object time-out has elapsed.  Oracle only.
@@ -873,7 +986,7 @@ impl flute::receiver::MultiReceiverListener for Closed {
 
 fn fdt_only_session(n: u32) -> Result<(), String> {
     let log: Log = Rc::new(RefCell::new(Vec::new()));
-    let builder = Rc::new(RecBuilder { log, cur_fdt: Rc::new(Cell::new(0)) });
+    let builder = Rc::new(RecBuilder { log, cur_fdt: Rc::new(Cell::new(0)), tag_tsi: false });
     let config = RxConfig { session_timeout: None, object_timeout: Some(Duration::from_millis(1)), ..Default::default() };
     let ep = UDPEndpoint::new(None, "224.0.0.1".to_string(), 5000);
     let now = st(gen::T0);
@@ -910,7 +1023,7 @@ fn fdt_only_session(n: u32) -> Result<(), String> {
 
 fn idle_sessions(n: u64) -> Result<(), String> {
     let log: Log = Rc::new(RefCell::new(Vec::new()));
-    let builder = Rc::new(RecBuilder { log, cur_fdt: Rc::new(Cell::new(0)) });
+    let builder = Rc::new(RecBuilder { log, cur_fdt: Rc::new(Cell::new(0)), tag_tsi: false });
     let config = RxConfig { session_timeout: Some(Duration::from_millis(1)), object_timeout: None, ..Default::default() };
     let mut mr = flute::receiver::MultiReceiver::new(builder, Some(config), false);
     let closed = Rc::new(Cell::new(0u64));
